@@ -40,13 +40,9 @@ use verif_harness::*;
 
 static CALLS: AtomicU64 = AtomicU64::new(0);
 
-/// Whether the test-only constructor `Salsa20Cipher::new_with_counter` (feature `verif-hooks` of
-/// cascette-crypto, /verif/fixes/HOOK-crypto.patch) is compiled in.  Flip to `all()` together with
-/// `features = ["verif-hooks"]` on cascette-crypto in harness/Cargo.toml once the hook is committed.
-#[cfg(any())]
+/// The test-only constructor `Salsa20Cipher::new_with_counter` (feature `verif-hooks` of cascette-crypto,
+/// committed in /repo as 229170a) is compiled in: programs with a preset block counter ("ctr") run.
 const HOOK_COUNTER: bool = true;
-#[cfg(not(any()))]
-const HOOK_COUNTER: bool = false;
 
 fn w32(x: u32) -> Value {
     json!([x >> 16, x & 0xffff])
@@ -239,13 +235,8 @@ impl Stream {
 }
 
 /// Test-only constructor presetting the 64-bit block counter (cascette-crypto feature `verif-hooks`).
-#[cfg(any())]
 fn salsa_with_counter(key: &[u8; 16], iv: &[u8], blk: usize, ctr: u64) -> Salsa20Cipher {
     Salsa20Cipher::new_with_counter(key, iv, blk, ctr).expect("salsa20 iv")
-}
-#[cfg(not(any()))]
-fn salsa_with_counter(_key: &[u8; 16], _iv: &[u8], _blk: usize, _ctr: u64) -> Salsa20Cipher {
-    unreachable!("counter hook not compiled in")
 }
 
 fn fam_split(p: &Value, r: &mut Run) {
